@@ -112,7 +112,56 @@ class Inventory:
             if f not in self.cg.bodies:
                 continue
             sites.extend(self._do_fn(f, roots, entry.get(f)))
+        self._context_retry(sites, reach, roots)
         return sites, reach
+
+    def _context_retry(self, sites, reach, roots):
+        """open sites of small non-root functions: re-analyse the function under the argument
+        intervals of each of its call sites; if the sites are proven in every calling context of the
+        analysed set they are discharged (context-sensitive second pass)."""
+        by_fn = {}
+        for s in sites:
+            if s.status == "open" and s.kind != "precond":
+                by_fn.setdefault(s.fn, []).append(s)
+        for g, open_sites in by_fn.items():
+            if not self.liftable(g, roots) or len(self.cg.bodies[g].blocks) > 80:
+                continue
+            contexts = []
+            for f in reach:
+                an = self.analyses.get(f)
+                if an is None:
+                    continue
+                for bi, t in self.cg.bodies[f].calls():
+                    if callee_name(t) == g and bi in an.inn:
+                        st = an.state_at_term(bi)
+                        ent = {}
+                        for i, a in enumerate(t["args"]):
+                            iv = an.op_iv(st, a)
+                            if iv is not None:
+                                ent["_%d" % (i + 1)] = iv
+                        contexts.append(tuple(sorted(ent.items())))
+            contexts = set(contexts)
+            if not contexts or len(contexts) > 300:
+                continue
+            failing = set()
+            for ctx in contexts:
+                sub = Analysis(self.cg.bodies[g], entry_iv=dict(ctx), adts=self.facts.adts, summaries=self.summaries).run()
+                for s in open_sites:
+                    if s.block not in sub.inn:
+                        continue
+                    probe = Site(s.fn, s.block, s.kind, s.detail, s.ops, s.line, s.mac, s.term)
+                    st = sub.state_at_term(s.block)
+                    if s.kind in ("assert", "ubcheck"):
+                        self._assert_goals(sub, st, s.block, probe)
+                    else:
+                        self._call_goals(sub, st, s.block, probe)
+                    ok = probe.status == "proven" or (probe.goals is not None and all(self._prove_goal(sub, st, g2) for g2 in probe.goals))
+                    if not ok:
+                        failing.add(id(s))
+            for s in open_sites:
+                if id(s) not in failing:
+                    s.status = "proven"
+                    s.how = "proved under the argument intervals of each of its %d calling contexts" % len(contexts)
 
     def _bottom_up(self, reach):
         order, seen, onstack = [], set(), set()
